@@ -25,6 +25,10 @@ def check_sentence(g, start, text, tree, toks, spell, case, acc):
         if True:
             acc.fail(('tree-differs-from-derivation',), case, 'derivation %r\nparso %r' % (a, b))
             return 'fail'
+    bad = _conform(g).check_tree(m)
+    if bad:
+        acc.fail(('tree-violates-conventions', bad[0][0]), case, repr(bad[0][1]))
+        return 'fail'
     if m.get_code() != text:
         acc.fail(('code-differs',), case)
         return 'fail'
@@ -41,6 +45,18 @@ def check_sentence(g, start, text, tree, toks, spell, case, acc):
             acc.fail(('recovering-tree-differs',), case)
             return 'fail'
     return 'ok'
+
+
+_CF = {}
+
+
+def _conform(g):
+    from ..conform import Conform
+    v = '%d.%d' % (g.version_info.major, g.version_info.minor)
+    c = _CF.get(v)
+    if c is None:
+        c = _CF[v] = Conform(v)
+    return c
 
 
 def _strings_equiv(a, b):
